@@ -103,6 +103,10 @@ type c13Case struct {
 	// NoRange: the backend does not implement GetBlobRange (it answers "unsupported"); the call asks for the
 	// whole blob as a range. Whatever the view does instead goes to the prefixed repository too.
 	NoRange bool `json:"backend_without_range_support,omitempty"`
+	// Args: which values the arguments other than names take: "" = distinctive ones (an upload ID, offsets 0
+	// and 2, chunk size 2, tag "t"); "zeros" = empty ID and tag, zero offsets and chunk size; "minus" = empty ID,
+	// offsets and chunk size -1. Confinement holds whatever those are.
+	Args string `json:"argument_values,omitempty"`
 }
 
 func nameClass(n string) string {
@@ -141,6 +145,12 @@ func c13RunConfine(r *vcore.Run, c c13Case) {
 		DescDigest: c12Dig, DescSize: 5, Data: []byte("hello"), MediaType: "application/octet-stream"}
 	if c.NoRange {
 		a.O1 = -1
+	}
+	switch c.Args {
+	case "zeros":
+		a.ID, a.Tag, a.O0, a.O1, a.Chunk = "", "", 0, 0, 0
+	case "minus":
+		a.ID, a.O0, a.O1, a.Chunk = "", -1, -1, -1
 	}
 	fp := fmt.Sprintf("C13/%s", c.Method)
 	if r.Guard("confine", fp+"/scope-"+c13ScopeClass(c.Scope), c, func() {
@@ -360,6 +370,20 @@ func c13Check(r *vcore.Run) vcore.Coverage {
 						}
 					}
 				}
+			}
+		}
+	}
+	// the same cases with other values for the arguments that are not names (valid caller names only: the
+	// name classes are covered above)
+	for _, c := range append([]c13Case(nil), cases...) {
+		if c.NoRange || nameClass(c.Name) != "valid" || (c.Scope != "" && c13ScopeClass(c.Scope) != "repository") {
+			continue
+		}
+		switch c.Method {
+		case "PushBlobChunked", "PushBlobChunkedResume", "GetBlobRange", "PushManifest", "Tags", "Referrers":
+			for _, v := range []string{"zeros", "minus"} {
+				c.Args = v
+				cases = append(cases, c)
 			}
 		}
 	}
